@@ -22,6 +22,9 @@ import tempfile
 import time
 
 VERIF = os.path.dirname(os.path.abspath(__file__))
+# evidence / replays go to VERIF_OUT when set (self-tests against mutant
+# trees must not overwrite the evidence of the real tree)
+OUT = os.environ.get('VERIF_OUT', VERIF)
 PY = '/venv/bin/python'
 sys.path.insert(0, VERIF)
 
@@ -148,7 +151,7 @@ def aggregate(prop, tier, seed, module, results, failures, wall):
         reasons.append('too few cases')
 
     # write replays
-    rdir = os.path.join(VERIF, 'replays', prop)
+    rdir = os.path.join(OUT, 'replays', prop)
     lines = []
     for mech, vs in sorted(new.items()):
         os.makedirs(rdir, exist_ok=True)
@@ -161,7 +164,7 @@ def aggregate(prop, tier, seed, module, results, failures, wall):
         with open(path, 'w') as f:
             json.dump(rec, f, indent=1)
         lines.append('VIOLATION property=%s replay=%s' % (
-            prop, os.path.relpath(path, VERIF)))
+            prop, os.path.relpath(path, OUT)))
         lines.append('  monitor=%s mechanism=%s witnesses=%d' % (
             vs[0]['monitor'], mech, len(vs)))
     for kid, (kf, n, v) in sorted(kf_hits.items()):
@@ -201,8 +204,8 @@ def aggregate(prop, tier, seed, module, results, failures, wall):
         'wall_s': round(wall, 2),
         'violations': int(sum(len(v) for v in new.values())),
     }
-    os.makedirs(os.path.join(VERIF, 'evidence'), exist_ok=True)
-    with open(os.path.join(VERIF, 'evidence', prop + '.json'), 'w') as f:
+    os.makedirs(os.path.join(OUT, 'evidence'), exist_ok=True)
+    with open(os.path.join(OUT, 'evidence', prop + '.json'), 'w') as f:
         json.dump(evidence, f, indent=1, sort_keys=True)
     return verdict, lines, reasons, coverage
 
